@@ -373,7 +373,7 @@ def src_with_ref(par, lines, nd, nm):
 TOPS = ['d+', 'd-', 'd/', 'dN', 'r-', 'r--', 'r---', 'r+', 'r++', 'r+++', 'd$', 'r$', 'd.', 'r.', 'rc']
 
 
-def temp_render(seq):
+def temp_render(seq, nform='label'):
     out = ['\tcpu 6502', '\torg $1000']
     fn = [i for i, op in enumerate(seq) if op == 'dN']
     firstn = fn[0] if fn else None
@@ -385,7 +385,9 @@ def temp_render(seq):
         elif op == 'd/':
             out.append('/\tnop')
         elif op == 'dN':
-            out.append('lab%d:\tnop' % i)
+            # the non-temporary definition that opens a new scope for $$ and .name symbols: a label, or any other kind of definition
+            out += {'label': ['lab%d:\tnop' % i], 'equ': ['lab%d\tequ *' % i, '\tnop'], 'set': ['lab%d\tset *' % i, '\tnop'],
+                    'assign': ['lab%d\t= *' % i, '\tnop']}[nform]
         elif op == 'd$':
             out.append('$$t:\tnop')
         elif op == 'r$':
@@ -470,14 +472,17 @@ def temp_cases(n):
         for s in itertools.product(TOPS, repeat=k):
             if any(o[0] == 'r' for o in s):
                 yield {'k': 'temp', 'seq': list(s)}
+                if 'dN' in s and any(o in ('d$', 'r$', 'd.', 'r.', 'rc') for o in s) and k <= 4:
+                    for nf in ('equ', 'set', 'assign'):
+                        yield {'k': 'temp', 'seq': list(s), 'nform': nf}
 
 
 def ev_temp(case):
     seq = case['seq']
-    src = temp_render(seq)
+    src = temp_render(seq, case.get('nform', 'label'))
     o, p = asm(src)
     ck = core.crashkind(o)
-    d = ' '.join(seq)
+    d = ' '.join(seq) + (' (dN written as %s)' % case['nform'] if 'nform' in case else '')
     if ck:
         return core.R(False, ck, 'crash/' + ck, '%s on %s' % (ck, d))
     m = temp_model(seq)
